@@ -4,7 +4,8 @@ Real code under test: eliot._generators.eliot_friendly_generator_function and (t
 /verif/stubs) eliot.twisted.inline_callbacks.
 
 A scenario is {"gens": [{"kind": "gen"|"ic", "prog": <program>} ...], "steps": [<driver step> ...], "debug": bool}.
-A program is a small tree of ops interpreted by ONE generic generator body:
+A program is a small tree of ops, compiled to the source of a real flat generator function (real with/try/yield/
+yield from/return; generators with equal programs are instances of the same decorated function):
   ["log"] ["yield"] ["act", prog] ["try", prog, "except"|"finally", handler_prog] ["raise", "V"|"B"|"S"] ["return"]
   ["sub", "yf"|"list"|"spawn", prog]   start a nested decorated generator (yield from it / exhaust it / keep it)
   ["c", how, k, exc]                   resume kept child k (next/send/throw/close) from inside the body
@@ -24,11 +25,18 @@ the very same bodies undecorated and no eliot at all ("plain" run).  Oracles (al
                   are unique, contiguous and increasing; with debug on, each "yielded" message sits under the model's
                   action of the generator whose wrapper emitted it.
 
-KNOWN_ON_UNCHANGED_TREE: none.  (No clause of C15 was found violated on the unchanged tree within the explored bound.
-Two things that are NOT counted as violations: (a) "started" is taken to mean the first resumption, not the call that
-creates the generator object: the wrapper copies the context at its first next()/send(None); (b) on Python 3.12 the
-wrapper's gen.throw(*exc_info()) emits a DeprecationWarning for the 3-argument throw() signature; the driver runs with
-warnings ignored.)
+KNOWN_ON_UNCHANGED_TREE (reported under "known", signature {"clause": "transparency", "where": "throw-deprecation-warning-as-error"}):
+  On Python >= 3.12 the wrapper forwards a thrown exception / close() with the 3-argument gen.throw(*exc_info()), which
+  emits DeprecationWarning("the (type, exc, tb) signature of throw() is deprecated ...").  When warnings are errors
+  (python -W error, pytest filterwarnings = error; scenarios with "werror": true) that warning is raised INSTEAD of
+  delivering the exception: e.g. {"gens": [{"kind": "gen", "prog": [["act", [["yield"], ["log"], ["yield"]]], ["log"]]}],
+  "steps": [["enter"], ["r", "next", 0, "plain", null], ["exit"], ["r", "throw", 0, "plain", "V"]], "werror": true}:
+  throw(ValueError) (and likewise close()) comes back to the driver as DeprecationWarning, the body never sees the
+  ValueError/GeneratorExit at its yield, the wrapper dies, and the body is then finalized by garbage collection in the
+  DRIVER's context (its except/finally blocks and the exit of the action spanning the yield run under the wrong action;
+  the action's end message is lost).  With default warning filters nothing is violated.
+Not counted as a violation: "started" is taken to mean the first resumption, not the call that creates the generator
+object (the wrapper copies the context at its first next()/send(None)).
 """
 import argparse, contextlib, contextvars, gc, itertools, json, random, sys, threading, traceback, warnings
 
@@ -47,7 +55,7 @@ except Exception as _e:  # stub package missing: inline_callbacks part is skippe
     print("c15: eliot.twisted not importable (%r); inline_callbacks scenarios run as plain generators" % (_e,), file=sys.stderr)
     HAVE_IC = False
 
-KNOWN_SIGNATURES = []  # signatures (dicts) of genuine violations on the unchanged tree; none known
+KNOWN_SIGNATURES = [{"clause": "transparency", "where": "throw-deprecation-warning-as-error"}]  # see KNOWN_ON_UNCHANGED_TREE
 
 
 class Boom(BaseException):
@@ -80,7 +88,7 @@ class Handle(object):
         self.world = world; self.gid = gid; self.kind = kind; self.parent = parent
         self.interp = Interp(world, self, prog)
         self.obj = None; self.func = None; self.called = False; self.result_d = None; self.final = UNSET
-        self.home_candidate = None; self.home = None; self.yf_parent = None; self.resumes = 0
+        self.home_candidate = None; self.home = None; self.yf_parent = None; self.resumes = 0; self.closing_token = None
 
     def ensure_obj(self):
         if self.func is None:
@@ -95,7 +103,7 @@ class Handle(object):
                     self.func = eliot_twisted.inline_callbacks(body, debug=w.debug) if w.real else inlineCallbacks(body)
                 elif w.real:
                     self.func = eliot_friendly_generator_function(body)
-                    self.func.debug = w.debug
+                    if w.debug: self.func.debug = True  # otherwise the default (off) is what is tested
                 else:
                     self.func = body
                 w.funcs[key] = self.func
@@ -162,7 +170,9 @@ class Handle(object):
         elif resumer_rec is not self.home:
             w.foreign += 1
         self.resumes += 1
-        w.chain.append(self)
+        w.ev("resume", self.gid, how, w.desc(payload) if not isinstance(payload, type) else payload.__name__)
+        w.ntoken += 1
+        w.chain.append((self, how, w.ntoken))
         try:
             out = self._do(how, payload)
         finally:
@@ -305,6 +315,7 @@ class Interp(object):
         return v
 
     def exc_at_yield(self, e):
+        if isinstance(e, GeneratorExit): self.world.note_generator_exit(self)
         self.obs("exc-at-yield"); self.world.ev("thrown-in", self.gid, self.world.desc(e))
 
     def post_yield(self, got):
@@ -377,7 +388,7 @@ class World(object):
         self.trace = []; self.problems = []; self.keep = []; self.exc_tags = {}
         self.nsent = 0; self.nexc = 0; self.nlog = 0; self.nact = 0
         self.handles = []; self.msgs = []; self.actions = []; self.logexp = {}; self.anames = {}
-        self.chain = []; self.yield_expect = []; self.foreign = 0; self.dstack = []; self.funcs = {}
+        self.saw_throw_deprecation = False; self.chain = []; self.ntoken = 0; self.yield_expect = []; self.foreign = 0; self.dstack = []; self.funcs = {}
         self.dest = self.msgs.append
 
     # -- bookkeeping
@@ -413,6 +424,8 @@ class World(object):
         if isinstance(v, BaseException):
             tag = self.exc_tags.get(id(v))
             if tag is not None: return tag
+            if isinstance(v, DeprecationWarning) and "signature of throw() is deprecated" in str(v):
+                self.saw_throw_deprecation = True
             if not isinstance(v, ALLOWED_NEW) or (type(v) not in ALLOWED_NEW):
                 tb = "".join(traceback.format_exception(type(v), v, v.__traceback__))[-600:]
                 self.problem("transparency" if self.real else "crash", "unexpected-exception", "unexpected %s: %s\n%s" % (type(v).__name__, v, tb))
@@ -436,12 +449,29 @@ class World(object):
             log_message(message_type="m", k=key)
 
     def expect_yielded(self, interp):
+        """Which wrappers will log a debug 'yielded' message for the yield the body of interp is about to make."""
         h = interp.handle
         if h.kind == "ic":
             self.yield_expect.append(interp.top()); return
+        top, how, token = self.chain[-1] if self.chain else (None, None, None)
         for _ in range(50):
             self.yield_expect.append(h.interp.top())
-            if (self.chain and self.chain[-1] is h) or h.yf_parent is None: break
+            # a wrapper that is being close()d logs and then dies with RuntimeError: the value goes no further
+            if h.closing_token == token or h is top or h.yf_parent is None: break
+            h = h.yf_parent
+
+    def note_generator_exit(self, interp):
+        """GeneratorExit arrived at a yield of interp's body: every wrapper it was delegated through by `yield from`
+        (which uses close()) is being closed; the outermost one only if it was resumed with close()."""
+        if not self.chain: return
+        top, how, token = self.chain[-1]
+        h = interp.handle
+        for _ in range(50):
+            if h is top:
+                if how == "close": h.closing_token = token
+                break
+            h.closing_token = token
+            if h.yf_parent is None: break
             h = h.yf_parent
 
     def spawn(self, kind, prog, parent):
@@ -459,7 +489,6 @@ class World(object):
     def do_resume(self, how, g, mode, exc, label):
         h = self.handles[g % len(self.handles)]
         payload = self.payload(how, exc)
-        self.ev("resume", h.gid, how, exc if how == "throw" else None)
         if not self.real:
             mode = "thread" if mode == "thread" else "plain"
 
@@ -608,6 +637,15 @@ def _execute_checked(w):
 
 
 def run_world(sc, real):
+    if not sc.get("werror"):
+        return _run_world(sc, real)
+    # "werror": the application runs with warnings turned into errors (python -W error, pytest filterwarnings=error)
+    with warnings.catch_warnings():
+        warnings.simplefilter("error")
+        return _run_world(sc, real)
+
+
+def _run_world(sc, real):
     w = World(sc, real)
     if real: add_destinations(w.dest)
     try:
@@ -629,6 +667,17 @@ def run_world(sc, real):
 
 def run_scenario(sc):
     """-> (problems [(cat, where, text)], nontrivial bool)"""
+    if not sc.get("werror"):
+        return _run_scenario(sc)
+    hook = sys.unraisablehook
+    sys.unraisablehook = lambda u: None  # the known corner case leaves generators to the garbage collector: keep stderr quiet
+    try:
+        return _run_scenario(sc)
+    finally:
+        gc.collect(); sys.unraisablehook = hook
+
+
+def _run_scenario(sc):
     ref = run_world(sc, False)
     real = run_world(sc, True)
     problems = list(real.problems)
@@ -643,6 +692,10 @@ def run_scenario(sc):
         lastres = [t for t in real.trace[:i + 1] if t[0] == "resume"]
         problems.append(("transparency", "%s/%s" % (kind, lastres[-1][2] if lastres else "-"),
                          "event #%d differs: decorated %r vs undecorated %r (last resumption %r)" % (i, a, b, lastres[-1] if lastres else None)))
+    if real.saw_throw_deprecation and sc.get("werror") and problems:
+        # consequences of the known corner case below all collapse into its one signature
+        problems.insert(0, ("transparency", "throw-deprecation-warning-as-error",
+                            "with warnings as errors the wrapper's gen.throw(*exc_info()) raises DeprecationWarning instead of delivering the exception/close"))
     nontrivial = real.foreign > 0 and any(h.interp.begun and h.resumes >= 2 for h in real.handles)
     return problems, nontrivial
 
@@ -694,35 +747,39 @@ def steps_for(seq, pattern, gsel=None):
 def enumerate_scenarios(tier, seed):
     quick = tier == "quick"
     rng = random.Random(seed)
-    out = []
-    # family A: fixed single-generator bodies x every resumption sequence x context pattern x flavour
-    LA = 3 if quick else 4
+    # family A: fixed single-generator bodies x (0..2 advancing resumptions, then every resumption sequence) x context pattern
+    LA = 2 if quick else 3
+    ADV = [[], [("next", None)], [("next", None), ("send", None)], [("next", None), ("send", None), ("next", None)]]
     for pi, prog in enumerate(FIXED_PROGS):
-        for seq in itertools.product(HOWS, repeat=LA):
-            for pat in CTX_PATTERNS:
-                if quick and rng.random() > 0.22: continue
-                if not quick and rng.random() > 0.55: continue
-                kind = "ic" if rng.random() < 0.15 else "gen"
-                out.append({"gens": [{"kind": kind, "prog": prog}], "steps": steps_for(seq, pat), "debug": rng.random() < 0.2})
-    # family B: two/three generators with actions spanning yields, every interleaving of who is resumed how
-    LB = 4 if quick else 5
+        for adv in (ADV[:3] if quick else ADV):
+            for seq in itertools.product(HOWS, repeat=LA):
+                for pat in CTX_PATTERNS:
+                    if rng.random() > (0.5 if quick else 0.8): continue
+                    kind = "ic" if rng.random() < 0.15 else "gen"
+                    yield {"gens": [{"kind": kind, "prog": prog}], "steps": steps_for(list(adv) + list(seq), pat), "debug": rng.random() < 0.2}
+    # family B: two generators with actions spanning yields, every interleaving of who is resumed how
+    LB = 3 if quick else 4
     HB = [("next", None), ("send", None), ("throw", "B"), ("close", None)]
     progsB = [[["act", [Y, L, Y]], L, ["return"]], [L, ["act", [["try", [Y, Y], "finally", [L]]]], Y]]
-    for seq in itertools.product(HB, repeat=LB):
-        for gsel in itertools.product([0, 1], repeat=LB):
-            if gsel[0] != 0: continue
-            if rng.random() > (0.12 if quick else 0.5): continue
-            pat = rng.choice(CTX_PATTERNS)
-            kinds = ["ic" if rng.random() < 0.15 else "gen" for _ in range(2)]
-            same = rng.random() < 0.4  # two instances of one decorated function
-            if same: kinds[1] = kinds[0]
-            out.append({"gens": [{"kind": kinds[0], "prog": progsB[0]}, {"kind": kinds[1], "prog": progsB[0 if same else 1]}],
-                        "steps": [["create", 0], ["create", 1]] + steps_for(seq, pat, gsel), "debug": rng.random() < 0.2})
+    for started in (0, 1, 2):
+        pre = [("next", None)] * started; gpre = [0, 1][:started]
+        for seq in itertools.product(HB, repeat=LB):
+            for gsel in itertools.product([0, 1], repeat=LB):
+                if rng.random() > (0.5 if quick else 0.9): continue
+                pat = rng.choice(CTX_PATTERNS)
+                kinds = ["ic" if rng.random() < 0.15 else "gen" for _ in range(2)]
+                same = rng.random() < 0.4  # two instances of one decorated function
+                if same: kinds[1] = kinds[0]
+                yield {"gens": [{"kind": kinds[0], "prog": progsB[0]}, {"kind": kinds[1], "prog": progsB[0 if same else 1]}],
+                            "steps": [["create", 0], ["create", 1]] + steps_for(pre + list(seq), pat, gpre + list(gsel)), "debug": rng.random() < 0.2}
+    # family W: the same kind of thing with warnings turned into errors (known corner case on Python >= 3.12)
+    for prog in FIXED_PROGS[:4]:
+        for seq in ([("next", None), ("throw", "V")], [("next", None), ("send", None), ("close", None)], [("next", None), ("next", None)]):
+            yield {"gens": [{"kind": "gen", "prog": prog}], "steps": steps_for(seq, "alt"), "debug": False, "werror": True}
     # family C: seeded random programs and drivers
-    NC = 2500 if quick else 60000
+    NC = 3000 if quick else 60000
     for _ in range(NC):
-        out.append(random_scenario(rng))
-    return out
+        yield random_scenario(rng)
 
 
 def random_prog(rng, depth, subdepth, top=False):
@@ -743,7 +800,7 @@ def random_prog(rng, depth, subdepth, top=False):
             if subdepth > 0:
                 ops.append(["sub", rng.choice(["yf", "list", "spawn", "spawn"]), random_prog(rng, min(depth, 2), subdepth - 1, True)])
         else:
-            how = rng.choice(["next", "next", "send", "throw", "close"])
+            how = rng.choice(["next", "next", "next", "send", "send", "throw", "close"])
             ops.append(["c", how, rng.randint(0, 2), rng.choice(["V", "B", "G", "S", "Vc"]) if how == "throw" else None])
     if top and not any(o[0] in ("yield", "act", "try", "sub") for o in ops):
         ops.insert(rng.randint(0, len(ops)), ["act", [["yield"], ["log"], ["yield"]]])
@@ -755,7 +812,7 @@ def random_scenario(rng):
     for g in gens[1:]:
         if rng.random() < 0.35: g["kind"] = gens[0]["kind"]; g["prog"] = gens[0]["prog"]  # instances of one decorated function
     steps = []; depth = 0
-    for _ in range(rng.randint(3, 11)):
+    for _ in range(rng.randint(3, 14)):
         r = rng.random()
         if r < 0.12: steps.append(["enter"]); depth += 1
         elif r < 0.22:
@@ -763,7 +820,7 @@ def random_scenario(rng):
         elif r < 0.26: steps.append(["log"])
         elif r < 0.32: steps.append(["create", rng.randint(0, 2)])
         else:
-            how = rng.choice(["next", "next", "next", "send", "send", "throw", "throw", "close"])
+            how = rng.choice(["next"] * 8 + ["send"] * 6 + ["throw"] * 4 + ["close"] * 2)
             exc = rng.choice(["V", "B", "G", "S", "Vc", "Bc"]) if how == "throw" else None
             mode = rng.choice(["plain", "plain", "plain", "plain", "copyctx", "emptyctx", "thread", "freshtask", "freshtask"])
             steps.append(["r", how, rng.randint(0, 5), mode, exc])
@@ -771,7 +828,7 @@ def random_scenario(rng):
 
 
 def main():
-    fails = []; known = []; cases = 0; seen = set(); sigs = set(); nfail = 0
+    fails = []; known = []; cases = 0; seen = set(); sigs = set(); nfail = 0; nknown = 0
     if args.scenario:
         scs = [json.loads(args.scenario)]
     else:
@@ -781,26 +838,30 @@ def main():
         problems, nontrivial = run_scenario(sc)
         if nontrivial or args.scenario: seen.add(json.dumps(sc, sort_keys=True))
         if problems:
-            nfail += 1; gc.collect()
+            nfail += 1
+            if nfail <= 200: gc.collect()
             cat, where, _ = problems[0]
             sig = {"clause": cat, "where": where}
             rec = {"signature": sig, "scenario": sc, "observed": [("%s: %s" % (p[0], p[2]))[:400] for p in problems[:4]]}
             key = json.dumps(sig, sort_keys=True)
             if sig in KNOWN_SIGNATURES:
+                nknown += 1
                 if len(known) < 5 and key not in sigs: known.append(rec)
             elif len(fails) < 5 and key not in sigs:
                 fails.append(rec)
             sigs.add(key)
+            if len(fails) >= 5 or nfail - nknown >= 150:
+                print("c15: stopping early after %d scenarios" % cases, file=sys.stderr); break
     if nfail: print("c15: %d scenarios with problems, %d distinct signatures" % (nfail, len(sigs)), file=sys.stderr)
     quick = args.tier == "quick"
     res = {"cases": cases, "distinct": len(seen), "failures": fails,
            "bound": ("14 fixed bodies (actions spanning yields, try/except/finally around yields, yield-from / exhausted / manually interleaved nested "
-                     "decorated generators) x sampled resumption sequences of length %d over {next, send, throw ValueError/BaseException subclass/GeneratorExit/"
-                     "StopIteration, close} x 3 driver-context patterns; 2 generators x sampled interleavings of length %d; %d seeded random scenarios "
-                     "(<=3 top-level generators, body depth <=3, nesting of decorated generators <=2, <=11 driver steps, resumptions issued from the "
+                     "decorated generators) x (0..%d advancing resumptions then) sampled resumption sequences of length %d over {next, send, throw ValueError/BaseException subclass/GeneratorExit/"
+                     "StopIteration, close} x 3 driver-context patterns; 2 generators (0, 1 or both already started) x sampled interleavings of length %d; %d seeded random scenarios "
+                     "(<=3 top-level generators, body depth <=3, nesting of decorated generators <=2, <=14 driver steps, resumptions issued from the "
                      "driver's action stack, a copied context, an empty context, another thread or a fresh task); generator and %s flavours; "
                      "every scenario ends by closing all suspended generators from a foreign context")
-                    % (3 if quick else 4, 4 if quick else 5, 2500 if quick else 60000,
+                    % (2 if quick else 3, 2 if quick else 3, 3 if quick else 4, 3000 if quick else 60000,
                        "eliot.twisted.inline_callbacks (over a stub Deferred/inlineCallbacks)" if HAVE_IC else "NO inline_callbacks (stub missing)"),
            "rule": ("families A/B: itertools.product over resumption sequences (and over which generator is resumed), thinned with the seeded RNG; family C: "
                     "seeded random programs and driver steps. Each scenario runs decorated+real actions and undecorated+no eliot, traces compared. "
